@@ -23,7 +23,11 @@ use crate::{
     address::{addr::ScionAddr, host_addr::WireHostAddrError, socket_addr::ScionSocketAddr},
     core::view::{View, ViewConversionError},
     header::{layout::ScionHeaderLayout, view::ScionHeaderView},
-    payload::{ProtocolNumber, scmp::view::ScmpPayloadView, udp::view::UdpDatagramView},
+    payload::{
+        ProtocolNumber,
+        scmp::view::ScmpPayloadView,
+        udp::{layout::UdpDatagramLayout, view::UdpDatagramView},
+    },
 };
 
 // Marker types for different view variants.
@@ -412,10 +416,23 @@ impl ScionUdpPacketView {
     /// the UDP datagram.
     #[inline]
     pub fn udp(&self) -> &UdpDatagramView {
-        // The buffer size was already checked when creating the ScionUdpPacketView.
-        let (view, _) = UdpDatagramView::try_from_slice(self.payload())
-            .expect("udp payload is not large enough for a UDP header");
-        view
+        // The SCION payload was checked to hold a complete UDP header when the view was created and
+        // its size cannot change through safe code. The UDP length field however can be rewritten
+        // (e.g. via `as_raw_mut().payload_mut()`), so a length field that became invalid must not
+        // make this accessor panic: fall back to a view over the bare UDP header.
+        let payload = self.payload();
+        match UdpDatagramView::try_from_slice(payload) {
+            Ok((view, _)) => view,
+            Err(_) => {
+                debug_assert!(payload.len() >= UdpDatagramLayout::HEADER_SIZE_BYTES);
+                // SAFETY: payload.len() >= 8 is part of the view invariant (see has_required_size)
+                unsafe {
+                    UdpDatagramView::from_slice_unchecked(
+                        payload.get_unchecked(..UdpDatagramLayout::HEADER_SIZE_BYTES),
+                    )
+                }
+            }
+        }
     }
 
     /// Returns the source SCION socket address of the packet.
